@@ -136,8 +136,11 @@ var errTwin = errors.New("twin exec failure")
 // twinPlainImpl: no retry settings, no fallback; its exec always fails.
 type twinPlainImpl struct{ o *twinObs }
 
-func (t *twinPlainImpl) Prep(context.Context, *flyt.SharedStore) (any, error) { t.o.prep++; return nil, nil }
-func (t *twinPlainImpl) Exec(context.Context, any) (any, error)              { t.o.exec++; return nil, errTwin }
+func (t *twinPlainImpl) Prep(context.Context, *flyt.SharedStore) (any, error) {
+	t.o.prep++
+	return nil, nil
+}
+func (t *twinPlainImpl) Exec(context.Context, any) (any, error) { t.o.exec++; return nil, errTwin }
 func (t *twinPlainImpl) Post(context.Context, *flyt.SharedStore, any, any) (flyt.Action, error) {
 	t.o.post++
 	return "x", nil
@@ -146,8 +149,8 @@ func (t *twinPlainImpl) Post(context.Context, *flyt.SharedStore, any, any) (flyt
 // twinRetryImpl: budget 3 and a rescuing fallback; its exec always fails.
 type twinRetryImpl struct{ twinPlainImpl }
 
-func (t *twinRetryImpl) GetMaxRetries() int { return 3 }
-func (t *twinRetryImpl) GetWait() time.Duration { return 0 }
+func (t *twinRetryImpl) GetMaxRetries() int                   { return 3 }
+func (t *twinRetryImpl) GetWait() time.Duration               { return 0 }
 func (t *twinRetryImpl) ExecFallback(any, error) (any, error) { t.o.fb++; return "rescued", nil }
 
 // Two function-local struct types with the SAME name ("worker"): distinct types whose printed name (%T,
@@ -253,14 +256,14 @@ func sameNameSliceTypes() (fs []finding) {
 // ---- wiring --------------------------------------------------------------------------------------------------------
 
 var specials = map[string]func() []finding{
-	"zero-value-nodes":       zeroValueNodeRoutes,
-	"default-post":           defaultPostRoutes,
-	"same-name-node-types":   sameNameLifecycles,
-	"same-name-slice-types":  sameNameSliceTypes,
+	"zero-value-nodes":          zeroValueNodeRoutes,
+	"default-post":              defaultPostRoutes,
+	"same-name-node-types":      sameNameLifecycles,
+	"same-name-slice-types":     sameNameSliceTypes,
 	"zero-value-node-lifecycle": zeroValueNodeLifecycle,
 	"or-default-on-absent-keys": orDefaultOnAbsentKeys,
-	"bind-store-aware-hooks": bindStoreAwareHooks,
-	"bind-cyclic-values":     bindCyclicValues,
+	"bind-store-aware-hooks":    bindStoreAwareHooks,
+	"bind-cyclic-values":        bindCyclicValues,
 }
 
 type specialCase struct {
@@ -522,7 +525,10 @@ func runRouteCase(cs *RouteCase) (fs []finding) {
 			ctx, cancel := context.WithCancel(context.Background())
 			defer cancel()
 			exec := func(c context.Context, p any) (any, error) { cancel(); return "made it", nil }
-			post := func(c context.Context, s *flyt.SharedStore, p, e any) (flyt.Action, error) { o.posts++; return "after", nil }
+			post := func(c context.Context, s *flyt.SharedStore, p, e any) (flyt.Action, error) {
+				o.posts++
+				return "after", nil
+			}
 			var n flyt.Node
 			switch form {
 			case "option":
@@ -556,6 +562,25 @@ func runRouteCase(cs *RouteCase) (fs []finding) {
 			}
 			if got != cs.Val {
 				add("route-differs:exec-form-parallelism:"+form, "batch of %d blocking items with concurrency %d, exec function given as %s: %d executions are in flight when nothing moves any more, want %d", 2*cs.Val+1, cs.Val, form, got, cs.Val)
+			}
+		}
+	case "fallback-option-next-to-a-budget":
+		// installing a fallback function touches no other parameter: the budget given next to it (before or after, as
+		// option or through the builder) is what the getters report
+		fb := func(p any, e error) (any, error) { return nil, e }
+		type g interface{ GetMaxRetries() int }
+		forms := map[string]g{
+			"options: budget, fallback":                    flyt.NewNode(flyt.WithMaxRetries(cs.Val), flyt.WithExecFallbackFunc(fb)),
+			"options: fallback, budget":                    flyt.NewNode(flyt.WithExecFallbackFunc(fb), flyt.WithMaxRetries(cs.Val)),
+			"builder: budget, fallback":                    flyt.NewNode().WithMaxRetries(cs.Val).WithExecFallbackFunc(fb),
+			"builder: fallback, budget":                    flyt.NewNode().WithExecFallbackFunc(fb).WithMaxRetries(cs.Val),
+			"batch options: budget, fallback":              flyt.NewBatchNode(flyt.WithMaxRetries(cs.Val), flyt.WithExecFallbackFunc(fb)),
+			"batch options: fallback, budget":              flyt.NewBatchNode(flyt.WithExecFallbackFunc(fb), flyt.WithMaxRetries(cs.Val)),
+			"batch mixed: option fallback, builder budget": flyt.NewBatchNode(flyt.WithExecFallbackFunc(fb)).WithMaxRetries(cs.Val),
+		}
+		for name, n := range forms {
+			if got := n.GetMaxRetries(); got != cs.Val {
+				add("fallback-setting-changes-the-budget", "%s with budget %d: GetMaxRetries() = %d — the last setting of a parameter wins and unrelated settings leave it alone", name, cs.Val, got)
 			}
 		}
 	case "configured-after-wiring":
@@ -609,7 +634,6 @@ func runRouteCase(cs *RouteCase) (fs []finding) {
 	}
 	return fs
 }
-
 
 // storeHook is a payload / destination whose JSON methods use the store it is bound from (a record that keeps an
 // access counter, a lazily resolved reference, ...).
@@ -730,7 +754,6 @@ func bindCyclicValues() (fs []finding) {
 	return fs
 }
 
-
 // tuneOption is a user-side option factory: every option it returns is a closure of the one function literal below.
 //
 //go:noinline
@@ -746,7 +769,6 @@ func tuneOption(what string, v int) func(*flyt.BaseNode) {
 		}
 	}
 }
-
 
 // lifeNode / lifeLevel are node types with value receivers; lifeNode{} and lifeLevel(0) are their types' zero values.
 type lifeNode struct{}
@@ -813,7 +835,6 @@ func zeroValueNodeLifecycle() (fs []finding) {
 	return fs
 }
 
-
 // orDefaultOnAbsentKeys: on a key that is not there the Or-variant hands back ITS default — every time, whatever
 // default an earlier call was given — and the plain / Must variants keep failing: an accessor never changes what a
 // later accessor sees.
@@ -868,7 +889,6 @@ func orDefaultOnAbsentKeys() (fs []finding) {
 	}
 	return fs
 }
-
 
 // formLimitRun: see RouteCase "exec-form-parallelism".
 func formLimitRun(form string, cc, n int) (parked int, incon string) {
